@@ -148,6 +148,7 @@ class Particle:
     @classmethod
     def export(cls, particles: Iterable['Particle']) -> Element:
         """Reconstruct a DMX file with the specified particles."""
+        particles = list(particles)  # Iterated twice, allow one-shot iterables.
         root = Element('', 'DmElement')
         root['particleSystemDefinitions'] = part_list = Attribute.array('', ValueType.ELEMENT)
 
